@@ -36,74 +36,115 @@ def native_bin(name, release=False):
 SECTION = re.compile(r"^Checking harness (\S+?)\.\.\.", re.M)
 
 
+def _verdict(sec, short):
+    r = {"harness": short, "status": "inconclusive", "reason": "", "checks": 0, "failed": 0,
+         "failed_checks": [], "covers_sat": 0, "covers_total": 0, "time_s": None, "cex": []}
+    m = re.search(r"\*\* (\d+) of (\d+) failed", sec)
+    if m:
+        r["failed"], r["checks"] = int(m.group(1)), int(m.group(2))
+    m = re.search(r"\*\* (\d+) of (\d+) cover properties satisfied", sec)
+    if m:
+        r["covers_sat"], r["covers_total"] = int(m.group(1)), int(m.group(2))
+    m = re.search(r"Verification Time: ([0-9.]+)s", sec)
+    if m:
+        r["time_s"] = float(m.group(1))
+    r["failed_checks"] = re.findall(r"^Failed Checks: (.*)$", sec, re.M)
+    for blk in re.finditer(r"/// Check for `(\w+)`: (.*?)\n.*?let concrete_vals: Vec<Vec<u8>> = vec!\[(.*?)\n    \];",
+                           sec, re.S):
+        kind, desc, body = blk.group(1), blk.group(2).strip(), blk.group(3)
+        vals = [[int(x) for x in re.findall(r"\d+", v)] for v in re.findall(r"vec!\[([^\]]*)\]", body)]
+        r["cex"].append({"kind": kind, "desc": desc.strip('"'), "vals": vals})
+    if "VERIFICATION:- SUCCESSFUL" in sec:
+        if r["covers_total"] and r["covers_sat"] < r["covers_total"]:
+            r["status"], r["reason"] = "inconclusive", "vacuity witness (cover) not satisfied"
+        else:
+            r["status"] = "pass"
+    elif "CBMC timed out" in sec:
+        r["reason"] = "CBMC timed out (per-harness cap)"
+    elif "VERIFICATION:- FAILED" in sec:
+        unw = [f for f in r["failed_checks"] if "unwinding assertion" in f]
+        real = [f for f in r["failed_checks"] if "unwinding assertion" not in f]
+        if real:
+            r["status"] = "fail"
+        elif unw:
+            r["status"], r["reason"] = "inconclusive", "unwinding assertion failed (bound too small)"
+        else:
+            r["status"], r["reason"] = "inconclusive", "FAILED without failed checks (solver error/OOM?)"
+    else:
+        r["reason"] = "no verdict (timeout, out of memory or compiler error)"
+    return r
+
+
 def parse_kani(out):
-    """Split Kani output per harness and extract verdicts."""
+    """Sequential (regular) output: split per harness."""
     res = {}
     starts = [(m.start(), m.group(1)) for m in SECTION.finditer(out)]
     for idx, (pos, name) in enumerate(starts):
         end = starts[idx + 1][0] if idx + 1 < len(starts) else len(out)
-        sec = out[pos:end]
         short = name.split("::")[-1]
-        r = {"harness": short, "status": "inconclusive", "reason": "", "checks": 0, "failed": 0,
-             "failed_checks": [], "covers_sat": 0, "covers_total": 0, "time_s": None, "cex": []}
-        m = re.search(r"\*\* (\d+) of (\d+) failed", sec)
-        if m:
-            r["failed"], r["checks"] = int(m.group(1)), int(m.group(2))
-        m = re.search(r"\*\* (\d+) of (\d+) cover properties satisfied", sec)
-        if m:
-            r["covers_sat"], r["covers_total"] = int(m.group(1)), int(m.group(2))
-        m = re.search(r"Verification Time: ([0-9.]+)s", sec)
-        if m:
-            r["time_s"] = float(m.group(1))
-        r["failed_checks"] = re.findall(r"^Failed Checks: (.*)$", sec, re.M)
-        # concrete playback blocks
-        for blk in re.finditer(r"/// Check for `(\w+)`: (.*?)\n.*?let concrete_vals: Vec<Vec<u8>> = vec!\[(.*?)\n    \];",
-                               sec, re.S):
-            kind, desc, body = blk.group(1), blk.group(2).strip(), blk.group(3)
-            vals = [[int(x) for x in re.findall(r"\d+", v)] for v in re.findall(r"vec!\[([^\]]*)\]", body)]
-            r["cex"].append({"kind": kind, "desc": desc.strip('"'), "vals": vals})
-        if "VERIFICATION:- SUCCESSFUL" in sec:
-            if r["covers_total"] and r["covers_sat"] < r["covers_total"]:
-                r["status"], r["reason"] = "inconclusive", "vacuity witness (cover) not satisfied"
-            else:
-                r["status"] = "pass"
-        elif "VERIFICATION:- FAILED" in sec:
-            unw = [f for f in r["failed_checks"] if "unwinding assertion" in f]
-            real = [f for f in r["failed_checks"] if "unwinding assertion" not in f]
-            if real:
-                r["status"] = "fail"
-            elif unw:
-                r["status"], r["reason"] = "inconclusive", "unwinding assertion failed (bound too small)"
-            else:
-                r["status"], r["reason"] = "inconclusive", "FAILED without failed checks (solver error/OOM?)"
-        else:
-            r["reason"] = "no verdict (timeout, out of memory or compiler error)"
-        res[short] = r
+        res[short] = _verdict(out[pos:end], short)
     return res
 
 
-def run_kani(harnesses, timeout_s=900, mem_gb=24, extra=None, log_name=None):
-    """Run the given harnesses in one cargo-kani invocation (serialised by a lock)."""
+def parse_kani_parallel(out):
+    """`-j N --output-format terse` output: result blocks are tagged with the worker thread; the harness a
+    thread is working on is the last `Thread N: Checking harness X...` line of that thread."""
+    cur, bufs, tgt = {}, {}, None
+    for line in out.splitlines(True):
+        m = re.match(r"Thread (\d+): Checking harness (\S+?)\.\.\.", line)
+        if m:
+            cur[m.group(1)] = m.group(2).split("::")[-1]
+            bufs.setdefault(cur[m.group(1)], [])
+            continue
+        m = re.match(r"Thread (\d+): *$", line)
+        if m:
+            tgt = cur.get(m.group(1))
+            continue
+        if tgt is not None:
+            bufs.setdefault(tgt, []).append(line)
+    return {h: _verdict("".join(b), h) for h, b in bufs.items()}
+
+
+def _blank(h, reason):
+    return {"harness": h, "status": "inconclusive", "reason": reason, "checks": 0, "failed": 0,
+            "failed_checks": [], "covers_sat": 0, "covers_total": 0, "time_s": None, "cex": []}
+
+
+def run_kani(harnesses, timeout_s=900, per_harness_s=600, jobs=5, log_name=None):
+    """Phase 1: all harnesses in parallel (`-j`, verdicts only).  Phase 2: every harness that failed is re-run
+    alone with concrete playback so that its counterexample can be replayed natively."""
     ensure_dirs()
     sync_lock_files()
-    cmd = ["cargo", "kani", "--target-dir", KANI_TARGET, "-Z", "concrete-playback", "--concrete-playback=print"]
+    base = ["cargo", "kani", "--target-dir", KANI_TARGET]
+    cmd = base + ["-Z", "unstable-options", "--harness-timeout", f"{int(per_harness_s)}s", "-j", str(jobs),
+                  "--output-format", "terse"]
     for h in harnesses:
         cmd += ["--harness", h]
-    if extra:
-        cmd += extra
+    log = ""
     with Lock("cbmc"):
-        rc, out, secs = run(cmd, cwd=KANI_DIR, timeout=timeout_s, mem_gb=None)
+        rc, out, secs = run(cmd, cwd=KANI_DIR, timeout=timeout_s)
+        log += out
+        res = parse_kani_parallel(out)
+        compile_error = ("error: could not compile" in out) or ("error[E" in out)
+        failed = [h for h in harnesses if res.get(h, {}).get("status") == "fail"]
+        if failed and not compile_error:
+            cmd2 = base + ["-Z", "concrete-playback", "--concrete-playback=print"]
+            for h in failed:
+                cmd2 += ["--harness", h]
+            rc2, out2, secs2 = run(cmd2, cwd=KANI_DIR, timeout=max(300, per_harness_s * len(failed)))
+            log += "\n===== phase 2 (concrete playback) =====\n" + out2
+            secs += secs2
+            res2 = parse_kani(out2)
+            for h in failed:
+                if h in res2 and res2[h]["status"] == "fail":
+                    res[h] = res2[h]
     if log_name:
         with open(os.path.join(CACHE, log_name), "w") as f:
-            f.write(out)
-    res = parse_kani(out)
+            f.write(log)
     for h in harnesses:
         if h not in res:
-            reason = "timeout" if rc == -9 else "harness did not run (compile error?)"
-            res[h] = {"harness": h, "status": "inconclusive", "reason": reason, "checks": 0, "failed": 0,
-                      "failed_checks": [], "covers_sat": 0, "covers_total": 0, "time_s": None, "cex": []}
-    compile_error = ("error: could not compile" in out) or ("error[E" in out)
-    return res, {"rc": rc, "wall_s": secs, "compile_error": compile_error, "tail": out[-3000:]}
+            res[h] = _blank(h, "timeout" if rc == -9 else "harness did not run (compile error?)")
+    return res, {"rc": rc, "wall_s": secs, "compile_error": compile_error, "tail": log[-3000:]}
 
 
 def replay_native(harness, vals):
